@@ -20,6 +20,7 @@
 #include <covfie/core/backend/transformer/hilbert.hpp>
 #endif
 
+#include "aliases.hpp"
 #include "probes.hpp"
 #include "storage_common.hpp"
 #include "vh.hpp"
@@ -55,8 +56,8 @@ struct layer_of<L_HILBERT, IDX, STORE> {
 
 template <int L, typename I, std::size_t N, typename S, std::size_t M>
 struct Case {
-    using idx_d = cv::vector_d<I, N>;
-    using out_d = cv::vector_d<S, M>;
+    using idx_d = al::alias_t<I, N>;  // spelled the way users do: covfie::vector::ulong3, double3, ...
+    using out_d = al::alias_t<S, M>;
     using backend_t = typename layer_of<L, idx_d, cb::array<out_d>>::type;
     using field_t = covfie::field<backend_t>;
     using pbackend_t = typename layer_of<L, idx_d, probe::flat<out_d>>::type;
@@ -65,6 +66,13 @@ struct Case {
     static std::string name()
     {
         return std::string(lname[L]) + "<" + vh::tn<I>() + "," + std::to_string(N) + ">,array<" + vh::tn<S>() + "," + std::to_string(M) + ">";
+    }
+
+    // double cells hold values a float cannot represent (a cell type narrower than declared would round them)
+    static S frac(S v)
+    {
+        if constexpr (std::is_same_v<S, double>) return v + 0.1;
+        return v;
     }
 
     static uint64_t storage_len(const sc::ext_t<N> & e)
@@ -97,7 +105,7 @@ struct Case {
                 typename field_t::coordinate_t cc;
                 for (std::size_t k = 0; k < N; ++k) cc[k] = (I)c[k];
                 for (std::size_t j = 0; j < M; ++j) {
-                    S v = (S)(id++);
+                    S v = frac((S)(id++));
                     view.at(cc)[j] = v;
                     model[sc::model_pos<N>(c, e) * M + j] = v;
                 }
@@ -128,7 +136,7 @@ struct Case {
                     cc[k] = (I)w[k];
                 }
                 for (std::size_t j = 0; j < M; ++j) {
-                    S v = (S)(id++);
+                    S v = frac((S)(id++));
                     view.at(cc)[j] = v;
                     model[sc::model_pos<N>(w, e) * M + j] = v;
                 }
@@ -322,6 +330,7 @@ int main(int argc, char ** argv)
 {
     vh::init(argc, argv);
     vh::Rng rng(vh::st().seed * 2750159 + 1);
+    al::alias_table_check();
 #if defined(SH_NARROW)
 #define NARROW_ALL(L)                              \
     full_range<L, unsigned char, 1>(rng);          \
